@@ -52,13 +52,16 @@ def enc_record(r) -> dict:
 def dec_record(j):
     from curies import Record
 
-    return Record(
-        prefix=uncps(j["p"]),
-        uri_prefix=uncps(j["u"]),
-        prefix_synonyms=[uncps(x) for x in j.get("ps", [])],
-        uri_prefix_synonyms=[uncps(x) for x in j.get("us", [])],
-        pattern=None if j.get("pat") is None else uncps(j["pat"]),
-    )
+    # fields are passed only when they carry something, as callers do: a record "without synonyms" is
+    # Record(prefix=..., uri_prefix=...), whose synonym lists are the defaults (pydantic: fields not set)
+    kw = {}
+    if j.get("ps"):
+        kw["prefix_synonyms"] = [uncps(x) for x in j["ps"]]
+    if j.get("us"):
+        kw["uri_prefix_synonyms"] = [uncps(x) for x in j["us"]]
+    if j.get("pat") is not None:
+        kw["pattern"] = uncps(j["pat"])
+    return Record(prefix=uncps(j["p"]), uri_prefix=uncps(j["u"]), **kw)
 
 
 def rec(p, u, ps=(), us=(), pat=None) -> dict:
@@ -309,6 +312,22 @@ def roundtrip_impl(conv, fmt, syn, expand):
         os.rmdir(d)
 
 
+def as_container(items: list, how: str):
+    """The same items in another container type: the functions take any iterable (chain: any sequence)."""
+    if how == "tuple":
+        return tuple(items)
+    if how == "iter":
+        return iter(items)
+    if how == "generator":
+        return (x for x in items)
+    if how == "dict_keys":
+        return {x: None for x in items}.keys() if len(set(map(id, items))) == len(items) and all(
+            isinstance(x, str) for x in items) and len(set(items)) == len(items) else list(items)
+    if how == "set":
+        return set(items) if all(isinstance(x, str) for x in items) else list(items)
+    return list(items)
+
+
 class InvalidCase(RuntimeError):
     """The case is not a well-formed program (only shrinking can produce one)."""
 
@@ -322,6 +341,7 @@ def run_impl(steps: list[dict], injected: dict | None = None, observer=None) -> 
     from curies import Converter
 
     slots: dict[int, Converter] = {}
+    kept_lists: dict[int, list] = {}
     attempted: set[int] = set()   # slots some earlier step tried to define (it may have raised)
     out = []
     for _i, st in enumerate(steps):
@@ -359,7 +379,21 @@ def run_impl(steps: list[dict], injected: dict | None = None, observer=None) -> 
                     slots[st["dst"]] = Converter.from_extended_prefix_map(data)
                 out.append(None)
             elif op == "init":
-                records = [dec_record(r) for r in st["records"]]
+                if st.get("same_list_as") is not None and st["same_list_as"] in kept_lists:
+                    records = kept_lists[st["same_list_as"]]      # the caller reuses its list object for a second converter
+                else:
+                    records = [dec_record(r) for r in st["records"]]
+                kept_lists[st["dst"]] = records
+                # the same records in another container type: the constructor takes any iterable of records
+                how = st.get("container", "list")
+                if how == "tuple":
+                    records = tuple(records)
+                elif how == "iter":
+                    records = iter(records)
+                elif how == "generator":
+                    records = (r for r in records)
+                elif how == "dict_values":
+                    records = {i: r for i, r in enumerate(records)}.values()
                 slots[st["dst"]] = Converter(records, delimiter=uncps(st.get("delim", [58])),
                                              strict=st.get("strict", True))
                 out.append(None)
@@ -375,11 +409,12 @@ def run_impl(steps: list[dict], injected: dict | None = None, observer=None) -> 
                     case_sensitive=st.get("cs", True), merge=st.get("merge", False))
                 out.append(None)
             elif op == "chain":
-                slots[st["dst"]] = curies.chain([slots[i] for i in st["srcs"]],
+                slots[st["dst"]] = curies.chain(as_container([slots[i] for i in st["srcs"]], st.get("container", "list")),
                                                 case_sensitive=st.get("cs", True))
                 out.append(None)
             elif op == "sub":
-                slots[st["dst"]] = slots[st["src"]].get_subconverter([uncps(x) for x in st["prefixes"]])
+                slots[st["dst"]] = slots[st["src"]].get_subconverter(
+                    as_container([uncps(x) for x in st["prefixes"]], st.get("container", "list")))
                 out.append(None)
             elif op in ("remap_curie", "remap_uri", "rewire"):
                 from curies import reconciliation as R
@@ -402,7 +437,8 @@ def run_impl(steps: list[dict], injected: dict | None = None, observer=None) -> 
 
                 delims = [uncps(d) for d in st.get("delims", [])]
                 slots[st["dst"]] = discover(
-                    [uncps(u) for u in st["uris"]], delimiters=delims or None, cutoff=st.get("cutoff"),
+                    as_container([uncps(u) for u in st["uris"]], st.get("container", "list")),
+                    delimiters=delims or None, cutoff=st.get("cutoff"),
                     metaprefix=uncps(st.get("metaprefix", [110, 115])),
                     converter=None if st.get("src") is None else slots[st["src"]])
                 out.append(None)
@@ -474,6 +510,14 @@ def program_strings(steps) -> set[str]:
             rec_strings(st["record"])
         if st["op"] == "add_prefix":
             rec_strings(st)
+        if st["op"] in ("load_pm", "load_reverse", "load_upgrade"):
+            for k, v in st["data"]:
+                out.add(uncps(k))
+                out.add(uncps(v))
+        if st["op"] == "load_priority":
+            for k, vs in st["data"]:
+                out.add(uncps(k))
+                out.update(uncps(v) for v in vs)
     return out
 
 
